@@ -259,7 +259,7 @@ def quick_unsat(hyps, timeout_ms=250, full=False):
             if _GROUND_CACHE[k]:
                 g.append(h)
         s = z3.Solver()
-        s.set('timeout', 3000)      # quantifier-free: normally milliseconds; the cap only matters under heavy load
+        s.set('timeout', 500)       # quantifier-free: decided in < 10 ms when decidable at all (50x margin for a loaded machine)
         for h in g:
             s.add(h)
         r = s.check()
